@@ -346,6 +346,16 @@ def _walk_stamps(fi):
             if isinstance(st, ast.Assign) and isinstance(st.targets[0], ast.Name) and isinstance(st.value, ast.Name):
                 carried = (st.targets[0].id, st.value.id)
         if carried is None:
+            # the other spelling of the walk: one cursor that advances itself, `stamp[rows, cur] = f(i)` and `cur = tour[rows, cur]`
+            adv = [(k_, st) for k_, st in enumerate(lp.body) if isinstance(st, ast.Assign) and isinstance(st.targets[0], ast.Name) and isinstance(st.value, ast.Subscript)
+                   and any(isinstance(x, ast.Name) and x.id == st.targets[0].id for x in ast.walk(st.value.slice))]
+            if len(adv) == 1:
+                cur_ = adv[0][1].targets[0].id
+                stp = [(k_, st) for k_, st in enumerate(lp.body) if isinstance(st, ast.Assign) and isinstance(st.targets[0], ast.Subscript)
+                       and any(isinstance(x, ast.Name) and x.id == cur_ for x in ast.walk(st.targets[0].slice))]
+                if len(stp) == 1:
+                    order = "stamp-first" if stp[0][0] < adv[0][0] else "advance-first"
+                    out.append((lp, _lin_in(stp[0][1].value, iv), cur_, order))
             continue
         pre, cur = carried
         steps = [st for st in lp.body if isinstance(st, ast.Assign) and isinstance(st.targets[0], ast.Name) and st.targets[0].id == cur and isinstance(st.value, ast.Subscript)
@@ -371,8 +381,26 @@ def _walk_stamps(fi):
                     o[k] = o.get(k, 0) + sg * v
                 return {k: v for k, v in o.items() if v}
             return None
-        out.append((lp, lin(e), pre))
+        out.append((lp, lin(e), pre, "advance-first"))
     return out
+
+
+def _lin_in(e, iv):
+    """linear form of an integer expression in the loop variable `iv`: {power: coefficient} or None"""
+    if isinstance(e, ast.Constant) and isinstance(e.value, int) and not isinstance(e.value, bool):
+        return {0: e.value}
+    if isinstance(e, ast.Name) and e.id == iv:
+        return {1: 1}
+    if isinstance(e, ast.BinOp) and isinstance(e.op, (ast.Add, ast.Sub)):
+        l, r = _lin_in(e.left, iv), _lin_in(e.right, iv)
+        if l is None or r is None:
+            return None
+        sg = 1 if isinstance(e.op, ast.Add) else -1
+        o = dict(l)
+        for k, v in r.items():
+            o[k] = o.get(k, 0) + sg * v
+        return {k: v for k, v in o.items() if v}
+    return None
 
 
 def ruin_repair_visit_stamps(ctx: Ctx):
@@ -389,7 +417,7 @@ def ruin_repair_visit_stamps(ctx: Ctx):
         loops = _walk_stamps(fi)
         if len(loops) != 1:
             raise AnalysisError(f"PDPRuinRepairEnv.{meth}: expected one tour walk that stamps visit times, found {len(loops)}")
-        lp, f, pre = loops[0]
+        lp, f, pre, order = loops[0]
         if f is None:
             raise AnalysisError(f"PDPRuinRepairEnv.{meth}: visit stamp is not linear in the loop index")
         # the walk starts at the depot: `pre` is initialised with zeros
@@ -398,10 +426,13 @@ def ruin_repair_visit_stamps(ctx: Ctx):
             if isinstance(st, ast.Assign) and isinstance(st.targets[0], ast.Name) and st.targets[0].id == pre and st.lineno < lp.lineno:
                 init = st.value
         from_depot = init is not None and any(isinstance(c, ast.Call) and ast.unparse(c.func) in ("torch.zeros", "torch.zeros_like") for c in ast.walk(init))
-        ok = f == {1: 1, 0: 1} and from_depot
+        # advance-first: iteration i stamps the i+1-th node AFTER the depot (the depot itself in iteration n - 1): needs i + 1.
+        # stamp-first: iteration i stamps the node reached after i moves (the depot in iteration 0): needs i.
+        want_f = {1: 1, 0: 1} if order == "advance-first" else {1: 1}
+        ok = f == want_f and from_depot
         shown = " + ".join((f"{v}*i" if k else str(v)) for k, v in sorted(f.items(), reverse=True)) or "0"
         ctx.ob("C09.i", f"PDPRuinRepairEnv.{meth}:visit-stamp", ok, fi.loc,
-               f"walk from the depot: {from_depot}; stamp of iteration i = {shown}" + ("" if ok else " -- get_mask wraps the depot's stamp with % n, which needs the depot (reached in iteration n - 1) stamped n"),
+               f"walk from the depot: {from_depot} ({order}); stamp of iteration i = {shown}" + ("" if ok else " -- get_mask wraps the depot's stamp with % n: the depot must carry a multiple of n and its successor 1"),
                construct=f"PDPRuinRepairEnv.{meth}:visit-stamp")
 
 
